@@ -35,7 +35,7 @@ ASSUMPTIONS = ["calls are atomic (no pre-emption inside a call); interleaving = 
                "capitalised colour names and lower-case residue keys are not generated (docstring and code disagree: ambiguity window)",
                "relative order of the space and the line break inside one gap is not asserted",
                "the default palette is whatever the pristine interpreter's aminoacids.DEFAULT_COLOR_PALETTE holds"]
-PROBES = ["palette_in_dict_subclass", "update_not_followed_by_render", "same_dict_object_passed_again", "caller_mutates_its_dict_after_update", "reject_on_custom_palette", "reject_at_first_key", "reject_at_last_key", "render_len_gt_100",
+PROBES = ["extra_keys_of_mixed_types", "shuffled_copy_is_live_object", "palette_in_dict_subclass", "update_not_followed_by_render", "same_dict_object_passed_again", "caller_mutates_its_dict_after_update", "reject_on_custom_palette", "reject_at_first_key", "reject_at_last_key", "render_len_gt_100",
           "render_len_multiple_of_50", "new_object_after_foreign_update", "accept_with_extra_keys"]
 
 
@@ -79,7 +79,13 @@ def gen_plan(streams, tier):
             pal = gen_palette(rnd, order)
             if rnd.random() < 0.1:
                 pal[rnd.choice(("X", "B", "Z", "*", "a"))] = rnd.choice(COLOURS)
+            extra = None
+            if rnd.random() < 0.1:
+                # further keys that are not residues (of types that do not even compare with each other)
+                extra = [[k_, rnd.choice(COLOURS + ["pink", 5])] for k_ in rnd.sample(["X", 7, None, 3.5, ["t", 1], "zz", True], rnd.randrange(1, 4))]
             op = {"k": "set", "o": rnd.randrange(nobj + 1), "pal": pal}
+            if extra:
+                op["extra_keys"] = extra
             if rnd.random() < 0.3:
                 op["then_mutate"] = [rnd.choice(list(AA)), rnd.choice(COLOURS + ["pink"])]
             if rnd.random() < 0.35:
@@ -93,11 +99,13 @@ def gen_plan(streams, tier):
             if rnd.random() < w_break:
                 op["pal"], op["j"], op["how"] = break_palette(rnd, pal, order)
             ops.append(op)
-        elif x < 0.93:
+        elif x < 0.90:
             ops.append({"k": "render", "o": rnd.randrange(nobj + 1)})
+        elif x < 0.93:
+            ops.append({"k": "copy", "o": rnd.randrange(nobj + 1), "via": rnd.choice(("frozen_all", "frozen_all", "shuffle", "permutant"))})
         else:
             ops.append({"k": "new", "seq": gen_seq(rnd, rnd.randrange(1, 70))})
-    return {"property": ID, "run_seed": streams.run_seed, "objects": objs, "ops": ops}
+    return {"property": ID, "noise": (rnd.randrange(1 << 30) if rnd.random() < 0.2 else None), "run_seed": streams.run_seed, "objects": objs, "ops": ops}
 
 
 def corpus():
@@ -128,6 +136,13 @@ def corpus():
     out.append(("valid_palette_in_dict_subclasses", {"property": ID, "run_seed": 25, "objects": ["ACDEFGHIKLMNPQRSTVWY"], "ops": [
         {"k": "set", "o": 0, "pal": red, "container": "OrderedDict"}, {"k": "set", "o": 0, "pal": blue, "container": "defaultdict"},
         {"k": "set", "o": 0, "pal": teal, "container": "subclass"}, {"k": "set", "o": 0, "pal": dict(red, Y={"colour": "red"}), "j": 19, "how": "colour"}, {"k": "render", "o": 0}]}))
+    out.append(("copies_do_not_share_palettes", {"property": ID, "run_seed": 26, "objects": ["ACDEFGHIKLMNPQRSTVWY"], "ops": [
+        {"k": "copy", "o": 0, "via": "frozen_all"}, {"k": "set", "o": 0, "pal": red}, {"k": "render", "o": 1}, {"k": "set", "o": 1, "pal": blue},
+        {"k": "render", "o": 0}, {"k": "copy", "o": 0, "via": "frozen_all"}, {"k": "set", "o": 2, "pal": teal}, {"k": "render", "o": 0}, {"k": "render", "o": 1},
+        {"k": "copy", "o": 1, "via": "permutant"}, {"k": "set", "o": 3, "pal": red}, {"k": "render", "o": 1}]}))
+    out.append(("extra_keys_of_mixed_types", {"property": ID, "run_seed": 27, "objects": ["ACDEFGHIKLMNPQRSTVWY"], "ops": [
+        {"k": "set", "o": 0, "pal": red, "extra_keys": [["X", "red"], [7, "blue"]]}, {"k": "render", "o": 0},
+        {"k": "set", "o": 0, "pal": blue, "extra_keys": [[None, "pink"], [["t", 1], 5], ["zz", "red"]]}, {"k": "render", "o": 0}]}))
     out.append(("block_boundaries", {"property": ID, "run_seed": 21,
                                      "objects": ["A" * n for n in (1, 9, 10, 11, 49, 50, 51, 99, 100, 101, 150, 151)],
                                      "ops": [{"k": "render", "o": i} for i in range(12)]}))
@@ -262,6 +277,9 @@ def execute(plan, ctx):
     from localcider.sequenceParameters import SequenceParameters
     from localcider.backend.data import aminoacids
     spmod.print = lambda *a, **k: None
+    if plan.get("noise") is not None:
+        from ..noise import noise_prelude
+        noise_prelude(ctx, plan["noise"])
     default = dict(aminoacids.DEFAULT_COLOR_PALETTE)
     if not is_valid(default):
         raise Violation("default_palette_invalid", "default", "shipped default palette is not a valid palette")
@@ -290,8 +308,42 @@ def execute(plan, ctx):
 
     for s in plan["objects"]:
         new(s)
+    import localcider.backend.sequence as seqmod
+    from ..clock import SimClock
+    from ..rng import RngModule, TapeRandom, UniformDriver
+    from localcider.sequencePermutants import SequencePermutants
+    clock = SimClock(ctx, ctx.streams.stream("clock"), "normal")
+    drv = UniformDriver(ctx.streams.stream("tape"))
+    seqmod.time = clock
+    seqmod.rng = RngModule(lambda: TapeRandom("move", ctx, drv, 20000))
     for n, op in enumerate(plan["ops"]):
         k = op["k"]
+        if k == "copy":
+            # a shuffled copy is an object of its own: whatever palette it starts with (the default, or the
+            # parent's at that moment), from now on only its own updates may change it
+            i = op["o"] % len(objs)
+            if op["via"] == "permutant":
+                child = SequencePermutants(seqs[i]).get_permutant()
+            elif op["via"] == "frozen_all":
+                child = objs[i].get_shuffled_sequence(set(range(len(seqs[i]))))
+            else:
+                child = objs[i].get_shuffled_sequence(set())
+            cs = child.get_sequence()
+            objs.append(child)
+            seqs.append(cs)
+            start = None
+            html = child.get_HTMLColorString()
+            for cand in (default, pals[i]):
+                if check_render(html, cs, cand) is None:
+                    start = dict(cand)
+                    break
+            if start is None:
+                raise Violation("render_mismatch", "render:copy", "a shuffled copy of object %d renders under neither the default nor its parent's palette" % i)
+            pals.append(start)
+            custom.append(custom[i] and start == pals[i] and start != default)
+            ctx.probe("shuffled_copy_is_live_object")
+            ctx.log.emit("copy", o=i, via=op["via"], n=len(cs))
+            continue
         if k == "new":
             new(op["seq"])
             if foreign_update[0]:
@@ -314,6 +366,9 @@ def execute(plan, ctx):
         valid = is_valid(pal)
         raised = None
         passed = dict(pal)
+        for k_, v_ in op.get("extra_keys") or []:
+            passed[tuple(k_) if isinstance(k_, list) else k_] = v_
+            ctx.probe("extra_keys_of_mixed_types")
         if op.get("container"):
             import collections
             if op["container"] == "OrderedDict":
